@@ -201,6 +201,32 @@ pub fn check_string<E: Engine>(x: &[u8]) -> Result<bool, String> {
             x.len()
         ));
     }
+    // decoding INTO an existing proof object (serde's in-place entry; what a Vec<RangeProof> uses when it is refilled): the
+    // object afterwards is the decoded proof, whatever it held before (here: degree 6, three L/R pairs)
+    {
+        use bincode::Options;
+        let mut old_bytes = vec![0u8; 1 + 32 * (5 + 6 + 2 * 3)];
+        old_bytes[0] = 6;
+        if let Ok(mut place) = guarded(|| RangeProof::<E::P>::from_bytes(&old_bytes))? {
+            let r = guarded(|| {
+                let mut d = bincode::Deserializer::from_slice(&framed, bincode::DefaultOptions::new().with_fixint_encoding().allow_trailing_bytes());
+                <RangeProof<E::P> as serde::Deserialize>::deserialize_in_place(&mut d, &mut place).map_err(|e| format!("{}", e))
+            })?;
+            if r.is_ok() != got.is_ok() {
+                return Err(format!(
+                    "serde form decoded in place {} what from_bytes {} ({} bytes)",
+                    if r.is_ok() { "accepts" } else { "rejects" },
+                    if got.is_ok() { "accepts" } else { "rejects" },
+                    x.len()
+                ));
+            }
+            if let (Ok(()), Ok(p)) = (&r, &got) {
+                if place != *p || place.to_bytes() != x {
+                    return Err("serde form decoded in place into an existing proof gives a proof different from from_bytes of the same string".into());
+                }
+            }
+        }
+    }
     if let Ok(p) = &got {
         let re = p.to_bytes();
         if re != x {
